@@ -20,17 +20,27 @@ LEVEL_TEXT = ('Partial. Coq theorems over R: project is feasible, the nearest fe
               'solve_spg_subproblem with qHistory, spectral step, both line searches and the generated clip, the outer loop calling them): for arbitrary length-preserving value/gradient/Hessian-vector oracles, '
               'EVERY sequence of root-finder answers, every settings record and every feasible start, every point the solver forms (the Cauchy point, every SPG iterate x+z, every trial point, every reported/returned point) is in the box; '
               'C05_flag_honest_complete_model: the complete model reports success only at a final ConvergedAt event at the returned point with |P(y-g)-y|<tol (no hypotheses); '
-              'outer loop for ARBITRARY value/gradient oracles and ARBITRARY step proposals (older model, kept): accepted objective values non-increasing (default mode, eta1>=0), '
-              'flag=False => returned point is the current iterate; convex + exact projected-gradient stationarity => bound-constrained minimiser. '
-              'Not proved: the binary64 version of feasibility (a bound can be exceeded by an ulp through y = x + z; L2 allows 4 ulp), the trust-region half |z|<=trSize for the SPG iterates (project_onto_tr itself is now proved inside the radius; the convex-combination step is not yet), '
-              'descent / returns-last restated over the complete model (they are proved for the proposal-oracle model, of which every complete run is an instance by construction of decide, not by a Coq theorem), '
-              'descent at the converged exit is FALSE (finding F1\'), success on convex problems (tested only).')
+              'C05_every_iterate_in_trust_region (new): the TRUST-REGION half of feasibility for the same complete model -- the trace now carries the centre x and radius trSize of every outer iteration (event FIter, '
+              'compared with the arguments the implementation hands to find_generalized_cauchy_point) and the theorem says: every FIter announces the current iterate (start / last accepted point) and a radius >= 0, '
+              'and the generalized Cauchy point, every SPG iterate x+z and every trial point y=x+s are within that radius of that centre, for arbitrary length-preserving oracles and EVERY sequence of root-finder answers; '
+              'hypotheses tr_size>=0, t1>=0, t2>=0, cauchy_point_max_line_search_iters>=1 (with a cap of 0 the cut-back loop returns after one cut-back without raising, possibly outside the radius); '
+              'ingredients: cut-back loop exit (C05_cauchy_step_in_trust_region), project_onto_tr inside the radius for every brentq answer (F15 repair), step length in [0,1], convexity of the ball along z += alpha*s (C05_spg_update_stays_in_ball); '
+              'C05_complete_run_is_a_proposal_oracle_run (new, REFINEMENT): every returning run of the complete model equals bc_minimize run with the proposal sequence the complete run computes (same point, flag, callback/precond/return events); '
+              'C05_trace_properties_complete_model (new): hence, for EVERY run of the complete model (RuntimeError exits included, no hypotheses): accepted objective values recomputed at the accepted point and non-increasing (default mode, eta1>=0), '
+              'flag=False => returned point is the current iterate and the trace ends in TooSmall/MaxIters; '
+              'outer loop for ARBITRARY value/gradient oracles and ARBITRARY step proposals (older model, kept, now the abstraction of the complete model by a Coq theorem); '
+              'convex + exact projected-gradient stationarity => bound-constrained minimiser; C05_convex_pg_small_near_min (new): gradient mu-strongly monotone and L-Lipschitz towards the constrained minimiser xs => '
+              'mu|x-xs| <= (1+L)|P(x-g)-x|, and C05_success_is_near_constrained_minimizer (new): a point the complete model returns with success is within (1+L)/mu*tol of xs (the bound the convex-box stream tests on the implementation); '
+              'C05_cauchy_step_cap_zero_refuted: with cauchy_point_max_line_search_iters = 0 the Cauchy step can leave the radius (witness replayed on find_generalized_cauchy_point). '
+              'L2 on the implementation: every reported iterate in the box (4 ulp), every Cauchy / SPG / trial point within trSize*(1+1e-9) (+ 8 ulp(|x|) sqrt(n) rounding of x+z) of its centre (new stream, worst ratio in the evidence). '
+              'Not proved: the binary64 versions (a bound can be exceeded by an ulp through y = x + z, the radius by a few ulp of |x|; L2 only), '
+              'descent at the converged exit is FALSE (finding F1\'), that the solver DOES report success on convex problems (global convergence; tested only).')
 TECHNIQUE = 'Coq proof (Reals, lra/nra, induction over the loops) on a hand model + regenerated line-search / clip / project kernels; vm_compute/PrimFloat correspondence of complete event traces with logged root-finder answers'
 GEN = ['TrustRegionSPG']
 TARGETS = ['model/M_C06_Vec.vo', 'model/M_C06_CG.vo', 'model/M_C01_TR.vo', 'model/M_C05_SPG.vo', 'model/M_C05_Full.vo', 'proofs/L_C06_Vec.vo', 'proofs/L_C01.vo', 'proofs/L_C05.vo',
-           'proofs/L_C05_Full.vo']
+           'proofs/L_C05_Full.vo', 'proofs/L_C05_TR.vo', 'proofs/L_C05_Refine.vo', 'proofs/L_C05_Convex.vo']
 COQ_FILES = ['base/Num.v', 'model/M_C06_Vec.v', 'model/M_C01_TR.v', 'model/M_C05_SPG.v', 'model/M_C05_Full.v', 'proofs/L_C06_Vec.v', 'proofs/L_C01.v', 'proofs/L_C05.v', 'proofs/L_C05_Full.v',
-             'props/P_C05.v']
+             'proofs/L_C05_TR.v', 'proofs/L_C05_Refine.v', 'proofs/L_C05_Convex.v', 'props/P_C05.v']
 TRUSTED = ['Coq 8.16.1 kernel + vm_compute (no native_compute)', 'tools/vlib/py2coq.py translator for the two line-search kernels, the clip statement (extracted from solve_spg_subproblem) and project',
            'hand models model/M_C05_SPG.v and model/M_C05_Full.v tied by the correspondence; in the complete model only scipy brentq is an ORACLE (its logged answers are fed to the model by call index); '
            'in the older proposal-oracle model solve_spg_subproblem outputs are fed',
@@ -40,11 +50,13 @@ TRUSTED = ['Coq 8.16.1 kernel + vm_compute (no native_compute)', 'tools/vlib/py2
            'theorems are over exact reals; binary64 rounding (bounds may be exceeded by an ulp through y = x + s) is covered only by L2 with 4 ulp slack']
 ASSUMPTIONS = ['none on value/gradient oracles and on step proposals for descent / flag / returns-last', 'lb <= ub wherever both finite', '0 <= eta1, default (non-incremental) mode for descent',
                'brentq returns some number (no assumption for box feasibility)',
-               'complete model: gradient and Hessian-vector oracles return vectors of the length of their argument (shape typing); nothing else']
+               'complete model: gradient and Hessian-vector oracles return vectors of the length of their argument (shape typing); nothing else',
+               'trust-region theorem: tr_size >= 0, t1 >= 0, t2 >= 0, cauchy_point_max_line_search_iters >= 1 (each needed); descent / returns-last over the complete model: none beyond 0 <= eta1 and default mode for descent']
 RULE = ('objectives as C01 (dyadic polynomials, 1..6 variables) with boxes whose components are finite, one-sided, infinite or degenerate (lb == ub), starts inside, on faces and on vertices, '
         'both line-search modes, settings forcing each exit; direct calls of project / project_onto_tr with points inside, outside the box and outside the radius; '
         'a case is non-trivial when at least one outer iteration runs (solver) or the root find is needed (project_onto_tr); distinct = distinct input tuples; '
-        'complete-model stream: the same solver cases, every event (Cauchy search projection count and alpha, every SPG iterate with its root-find count, exit kind and iteration count, trial point, callbacks) compared')
+        'complete-model stream: the same solver cases, every event (centre and radius of every outer iteration, Cauchy search projection count and alpha, every SPG iterate with its root-find count, exit kind and iteration count, '
+        'trial point, callbacks) compared; trust-region stream: every Cauchy / SPG / trial point of every solver run (incl. small-radius runs that force root finds) checked against the radius of its outer iteration')
 IMPORTS = ['From OV.gen Require Import Gen_TrustRegionSPG.', 'From OV.model Require Import M_C06_Vec M_C06_CG M_C01_TR M_C05_SPG M_C05_Full.']
 PREAMBLE = P1.PREAMBLE.split('Definition run_poly')[0] + '''
 Definition run_bc (A : list (list float)) (b c d : list float) (bs : list (@bound float)) (props : list (list float * float * bool * nat))
@@ -60,6 +72,7 @@ Definition enc_fev (e : fevent float) : list Z :=
   | FTrial y => 14 :: fencs y
   | FOut e => enc_ev e
   | FModelLimit => [15]
+  | FIter x D => 16 :: fencs x ++ fenc D
   end.
 Definition run_full (A E : list (list float)) (b c d : list float) (bs : list (@bound float)) (brents : list float)
     (x0 : list float) (S : settings float) (G : spg_settings float) : list Z :=
@@ -181,6 +194,8 @@ def run_impl(case, mods, noise=None):
 
     def logged_cp(*a, **k):
         n0 = nproj[0]
+        # start of an outer iteration: the centre x and the radius trSize of this iteration's trust region (model event FIter)
+        obj.log.append(('iter', [float(t) for t in a[0]], float(a[5])))
         try:
             r = orig_cp(*a, **k)
         except RuntimeError:
@@ -257,6 +272,28 @@ def excess(p, bs):
     return worst
 
 
+def tr_excess(full):
+    """trust-region half of feasibility on the implementation's own run (the conclusion of C05_every_iterate_in_trust_region): every point handed
+    to subproblem_optimality (the Cauchy point, every SPG iterate) and every trial point y = x + s lies within trSize of the x of its outer
+    iteration.  -> (number of points checked, worst |p - x| / allowed, first offender or None); allowed = trSize*(1 + 1e-9) + 8 ulp(max(1, |x|, |p|)) sqrt(n)
+    (the points are formed by the rounded addition x + z and the distance is recomputed from them)"""
+    c = d = None
+    n_chk, worst, first = 0, 0.0, None
+    for e in full:
+        if e[0] == 'iter':
+            c, d = e[1], e[2]
+        elif e[0] in ('spg', 'trial') and c is not None:
+            p = e[1]
+            dist = math.sqrt(sum((a - b) ** 2 for a, b in zip(p, c)))
+            allowed = d * (1 + 1e-9) + 8 * math.ulp(max([1.0] + [abs(t) for t in c + p if math.isfinite(t)])) * math.sqrt(len(c))
+            n_chk += 1
+            ratio = dist / allowed if allowed > 0 and dist == dist else (0.0 if dist == 0 else math.inf)
+            worst = max(worst, ratio)
+            if not dist <= allowed and first is None:
+                first = (e[0], p, c, d, dist)
+    return n_chk, worst, first
+
+
 def concl(case, out, mods):
     jnp, TR = mods
     obj, st = out['obj'], out['settings']
@@ -274,6 +311,10 @@ def concl(case, out, mods):
         if e > 4:
             bad.append(('infeasible', 'reported iterate %r leaves the box by %.3g ulp' % (p, e)))
             break
+    _, _, off = tr_excess(out['full'])
+    if off is not None and case['st'].get('cauchy_point_max_line_search_iters', 25) >= 1:
+        bad.append(('outside-trust-region', '%s point %r is %.17g away from the iterate %r of its outer iteration, trSize = %.17g'
+                    % ('an SPG / Cauchy' if off[0] == 'spg' else 'the trial', off[1], off[4], off[2], off[3])))
     vals = [float(obj.value(jnp.array(p))) for p in [case['x0']] + pts]
     if not case['st']['use_incremental_objective'] and case['st']['eta1'] >= 0:
         for i in range(1, len(vals)):
@@ -357,6 +398,9 @@ def parse_full(zs, n):
                 i += 2 * n
             elif code == 15:
                 ev.append(('limit',))
+            elif code == 16:
+                ev.append(('iter', C.dec_floats(zs[i:i + 2 * n]), C.dec_floats(zs[i + 2 * n:i + 2 * n + 2])[0]))
+                i += 2 * n + 2
             elif code == 6:
                 ev.append(('fuel',))
             elif code in (0, 1, 2, 3, 4, 5):
@@ -643,7 +687,7 @@ def correspondence(ctx, model_ok):
     outs = []
     hist = {}
     distinct = set()
-    worst = 0.0
+    worst = worst_tr = 0.0
 
     def bump(k):
         hist[k] = hist.get(k, 0) + 1
@@ -658,10 +702,35 @@ def correspondence(ctx, model_ok):
             distinct.add(json.dumps([c['A'], c['b'], c['c'], c['d'], c['x0'], c['bounds'], c['st']], sort_keys=True))
         for p in [q for k, q in o['log'] if k == 'cb']:
             worst = max(worst, excess(p, c['bounds']))
+        ntr, wtr, _ = tr_excess(o['full'])
+        ctx.count('trust_region_point_checks', ntr)
+        worst_tr = max(worst_tr, wtr)
         for tag, b in concl(c, o, mods):
             ctx.fail('conclusion', 'bound_constrained_trust_region_minimize: ' + b,
                      case=dict({k: v for k, v in c.items()}, tag=tag, impl=dict(x=o['x'], flag=o['flag'], log=o['log'], err=o['err'], min_alpha=o['min_alpha'])), concrete=True)
     convex_box_stream(ctx, mods)
+    # ---- trust-region stream: the same problems with a SMALL radius (0.03 .. 0.3), so that the box-projected spectral steps leave the ball and
+    #      project_onto_tr has to find roots / pull back inside solver runs; L2 only (box + radius + descent + flag on the implementation)
+    rs = ctx.rng('smalltr')
+    nsm = ctx.n(25, 150)
+    step = max(1, (len(cases) - 1) // nsm)
+    nroots = 0
+    for c in cases[1::step][:nsm]:
+        c2 = dict(c, st=dict(c['st'], tr_size=rs.choice([0.03, 0.1, 0.3]), min_tr_size=1e-8, max_trust_iters=8), kind='small-radius')
+        o2 = run_impl(c2, mods)
+        ctx.count('evaluations')
+        ctx.count('small_radius_cases')
+        nroots += len(o2['brents'])
+        ntr, wtr, _ = tr_excess(o2['full'])
+        ctx.count('trust_region_point_checks', ntr)
+        worst_tr = max(worst_tr, wtr)
+        if o2['brents']:
+            distinct.add(json.dumps([c2['A'], c2['b'], c2['c'], c2['d'], c2['x0'], c2['bounds'], c2['st']], sort_keys=True))
+        for tag, b in concl(c2, o2, mods):
+            ctx.fail('conclusion', 'bound_constrained_trust_region_minimize (small radius): ' + b,
+                     case=dict({k: v for k, v in c2.items()}, tag=tag, impl=dict(x=o2['x'], flag=o2['flag'], log=o2['log'], err=o2['err'], min_alpha=o2['min_alpha'])), concrete=True)
+    ctx.count('small_radius_root_finds', nroots)
+    ctx.count('solver_root_finds', nroots + sum(len(o['brents']) for o in outs))
     # ---- direct calls of project / project_onto_tr, brentq's answer logged
     pcases = gen_projection_cases(ctx, ctx.n(150, 1500))
     pouts = []
@@ -714,7 +783,15 @@ def correspondence(ctx, model_ok):
     ctx.count('distinct_nontrivial', len(distinct))
     ctx.count('conclusion_checks', total)
     ctx.cov['exit_histogram'] = hist
+    # replay of the witness of C05_cauchy_step_cap_zero_refuted (a remark about the hypothesis max_line_search_iters >= 1, not a failure)
+    try:
+        a0, s0 = quiet(TR.find_generalized_cauchy_point, jnp.array([0.0]), jnp.array([-1.0]), lambda v: 0.01 * v, jnp.array([[-INF, INF]]), 100.0, 1.0,
+                       TR.get_settings(cauchy_point_max_line_search_iters=0, debug_info=False))
+        ctx.cov['cap_zero_witness'] = dict(alpha=float(a0), step=[float(t) for t in s0], outside_radius_1=bool(float(s0 @ s0) > 1.0))
+    except Exception as ex:
+        ctx.cov['cap_zero_witness'] = dict(raised=repr(ex)[:200])
     ctx.cov['worst_bound_excess_ulp'] = worst
+    ctx.cov['worst_trust_region_ratio'] = worst_tr        # max |p - x| / (trSize*(1+1e-9) + rounding slack) over every SPG / Cauchy / trial point
     ctx.sample(dict(kind='solver', n=cases[-1]['n'], bounds=cases[-1]['bounds'], flag=outs[-1]['flag'], events=[k for k, _ in outs[-1]['log']]))
     ctx.sample(dict(kind='project_onto_tr', x=pcases[0]['x'], xk=pcases[0]['xk'], tr=pcases[0]['tr'], result=(pouts[0] or {}).get('q'), root_find=(pouts[0] or {}).get('root')))
     if not model_ok:
